@@ -153,7 +153,7 @@ class OneCoreDisk(DiskBase):
     see docs/blocking for point numbers and faces/grid indexing."""
 
     chops: ClassVar = [
-        [0],  # axis 0
+        [1],  # axis 0 (radial direction of the shell; core is defined by axis 1 chops)
         [1, 2],  # axis 1
     ]
 
@@ -190,7 +190,7 @@ class QuarterDisk(DiskBase):
     """A quarter of a four-core disk; see docs/blocking for point numbers and faces/grid indexing"""
 
     chops: ClassVar = [
-        [0],  # axis 0
+        [1],  # axis 0 (radial direction of the shell; core is defined by axis 1 chops)
         [1, 2],  # axis 1
     ]
 
@@ -294,7 +294,7 @@ class WrappedDisk(DiskBase):
     making the sketch a square"""
 
     chops: ClassVar = [
-        [6],
+        [1, 6],  # radial direction of the shell and of the wrapping
         [1, 2],
     ]
 
